@@ -198,6 +198,21 @@ def rule_e(F):
     return res
 
 
+def rule_f(F):
+    """the growth test is not off by one: see cao/capacity.py free_slot_after_insert"""
+    from cao import capacity
+    res = []
+    for f, ln, status, msg in capacity.free_slot_after_insert(F, "collections::hash_map::CaoHashMap", False):
+        key = "C12/F/%s/free-slot-after-insert" % f.name
+        mk = {"ok": ok, "bad": bad, "undecided": undecided}[status]
+        if any(r["key"] == key for r in res):
+            key += "#%d" % sum(1 for r in res if r["key"].startswith(key))
+        res.append(mk("C12.F", key, f.loc(ln), msg))
+    if not res:
+        raise AnchorMissing("growth tests in the insertion functions")
+    return res
+
+
 def rule_k(F):
     """every resize leaves a free slot: for each call of adjust_capacity, in all small states (count < capacity) in which the
     guards around the call hold, the installed capacity exceeds the item count (cao/capacity.py, exhaustive evaluation)."""
@@ -213,6 +228,7 @@ def rule_k(F):
 
 
 RULES = [
+    Rule("C12.F", rule_f, 2, "when the growth test declines a free slot remains after the insertion"),
     Rule("C12.K", rule_k, 2, "every resize leaves a free slot"),
     Rule("C12.R", rule_r, 4, "slot/count pairing in CaoHashMap"),
     Rule("C12.H", rule_h, 1, "one home-slot function"),
